@@ -167,6 +167,15 @@ deriving Repr
 def Ticker.toTime (tk : Ticker) (tick : Nat) : Int × Int :=
   (tk.start + wrap64 (tk.interval * toInt64 tick), tk.start + wrap64 (tk.interval * toInt64 (tick + 1)))
 
+/-- `ticker.TickMultiplier` once the two durations are known (`c` = the callee's `cEnd - cStart`, `b` = the bigger
+    ticker's, int64 nanoseconds): `c > b` → error; `b % c != 0` → error; else `b / c`.
+    `none` = integer divide by zero (c = 0), `some none` = the error answer. -/
+def tickMultiplier (c b : Int) : Option (Option Int) :=
+  if c > b then some none
+  else if c = 0 then none
+  else if Int.tmod b c ≠ 0 then some none
+  else some (some (wrap64 (Int.tdiv b c)))
+
 /-- `ticker.ToTick`: `uint64(int64(time.Sub(start).Seconds())) / uint64(interval.Seconds())`;
     `none` = integer divide by zero -/
 def Ticker.toTick (tk : Ticker) (t : Int) : Option Nat :=
